@@ -64,10 +64,15 @@ C15Step(m, o) ==
           \cup V(\A i \in DOMAIN E0 :
                     LET e == E0[i] c == Carried(o.out, e.m) IN
                     e.m \in C1 \/ e.tx - c = 0
-                    \/ (\E x \in (C1 \cup wire) : Addr(x.id) = Addr(e.m.id) /\ x # e.m),
+                    \/ (\E x \in (C1 \cup wire) : Addr(x.id) = Addr(e.m.id) /\ x # e.m)
+                    \* accepted again with the same content (leave_cluster / change_identity queue Down(self) whatever
+                    \* is pending; max_transmissions may have been lowered by set_config) and then exhausted
+                    \/ c >= maxtx,
                  "entry-left-the-backlog-before-max_transmissions-without-being-superseded")
           \* everything on the wire comes from the backlog
-          \cup V(\A x \in wire : x \in C0 \/ x \in C1 \/ Carried(o.out, x) = maxtx,
+          \cup V(\A x \in wire : x \in C0 \/ x \in C1 \/ Carried(o.out, x) = maxtx
+                                   \* accepted, sent, then superseded by a fresher update within the same call
+                                   \/ (\E y \in (C1 \cup wire) : Addr(y.id) = Addr(x.id) /\ y # x),
                  "update-on-the-wire-that-was-not-in-the-backlog")
           \* never omit what still fits; precedence to entries with more transmissions left
           \cup V((Reconstructible(o) /\ Piggy(o.out) # <<>> /\ o.res # "Panic") =>
